@@ -22,12 +22,12 @@ RULE = (
     "non-trivial = variant pair in which some particle is removed/dies while another particle at a different depth survives to a later record; "
     "lattice points distinct by construction"
 )
+RULE += " A slice of the lattice is also run time-reversed (scheme x death kind x period)."
 RULE += " Beyond the lattice (chosen scenarios, not enumerated): crowds of 400 particles next to the observed ones."
 ASSUMPTIONS = ["diffusion off (the statement's condition)", "float64 output so that comparison is bitwise"]
 
 S0 = world.tosec("2020-04-01T00:00:00")
 DT = 600
-NSTEPS = 7
 SHIFTS = [1, 2, 3, 5, 6, 7, 11]
 
 
@@ -48,6 +48,13 @@ def cases(tier, seed):
     # the same differential with the release positions given as longitude/latitude on a curved (polar stereographic) grid
     for sch, death in itertools.product(b["schemes"][:2], ["none", "ibm"]):
         out.append(dict(scheme=sch, layout="sparse", death=death, period=1, kill_step=1, coords="ll"))
+    # a longer horizon with crowds (a one-ulp difference in a sampled velocity needs a dozen steps before it shows in a position)
+    for sch in b["schemes"]:
+        if sch != "EF":
+            out.append(dict(scheme=sch, layout="sparse", death="ibm", period=1, kill_step=1, nsteps=16))
+    # the same differential in time-reversed runs (release order, clock and forcing hand-over run backwards)
+    for sch, death, P in itertools.product(b["schemes"], ["ibm", "leave", "both"], b["periods"]):
+        out.append(dict(scheme=sch, layout="sparse", death=death, period=P, kill_step=1, rev=True))
     return out
 
 
@@ -80,18 +87,26 @@ ROWS = [  # (tag, slot, X, Y, Z)
 ]
 
 
+# thirty more observed particles for the long-horizon cases: the more particles are watched, the sooner a last-bit difference in a velocity rounds into a position
+ROWS += [(20 + q, 0, 2.6 + 0.37 * (q % 6) + 0.011 * q, 2.2 + 0.5 * (q // 6) + 0.007 * q, 1.5 + 2.3 * q) for q in range(30)]
+
+
 def run_variant(case, rows, shift=0, mults=None, name="v"):
     """rows: list of indices into ROWS in file order. Returns {tag: [per record tuple]} or raises RunFailed."""
     d = util.scratch("c14")
-    t0 = S0 + shift * DT
+    sign = -1 if case.get("rev") else 1
+    NSTEPS = case.get("nsteps", 7)
+    t0 = S0 + sign * shift * DT
     # a frame at every step, counted in float hours (first file) and float days (second file): 10-minute frames are not
     # representable, so decoding the time axis must not depend on the whole-step shift of the set-up
     def fr(k):
         c = 1.0 + 0.0625 * k
-        return dict(t=t0 + k * DT, u=F0["u"] * c, v=F0["v"] * c - 0.0078125 * k, temp=F0["temp"] + k)
+        return dict(t=t0 + sign * k * DT, u=sign * F0["u"] * c, v=sign * (F0["v"] * c - 0.0078125 * k), temp=F0["temp"] + k)
 
-    W.write_file(d / "f_a.nc", [fr(k) for k in range(-1, 3)], time_units="hours since 1970-01-01 00:00:00")
-    W.write_file(d / "f_b.nc", [fr(k) for k in range(3, NSTEPS + 2)], time_units="days since 1970-01-01 00:00:00")
+    ks = list(range(-1, NSTEPS + 2))[::sign]  # calendar order (ladim negates u and v when time runs backwards: the reversed world stores the negated flow)
+    cut = 4 if sign > 0 else len(ks) - 4
+    W.write_file(d / "f_a.nc", [fr(k) for k in ks[:cut]], time_units="hours since 1970-01-01 00:00:00")
+    W.write_file(d / "f_b.nc", [fr(k) for k in ks[cut:]], time_units="days since 1970-01-01 00:00:00")
     rr = []
     for k, ri in enumerate(rows):
         tag, slot, x, y, z = ROWS[ri]
@@ -100,15 +115,15 @@ def run_variant(case, rows, shift=0, mults=None, name="v"):
         if case.get("coords") == "ll":
             from mc.props.c16 import bilin
 
-            rr.append(dict(mult=(mults or {}).get(ri, 1), release_time=world.iso(t0 + slot * DT), lon=repr(float(bilin(W.lon, x, y))), lat=repr(float(bilin(W.lat, x, y))), Z=z, tag=tag))
+            rr.append(dict(mult=(mults or {}).get(ri, 1), release_time=world.iso(t0 + sign * slot * DT), lon=repr(float(bilin(W.lon, x, y))), lat=repr(float(bilin(W.lat, x, y))), Z=z, tag=tag))
         else:
-            rr.append(dict(mult=(mults or {}).get(ri, 1), release_time=world.iso(t0 + slot * DT), X=x, Y=y, Z=z, tag=tag))
-    rr.sort(key=lambda r: r["release_time"])  # stable: keeps the given order within a release time
+            rr.append(dict(mult=(mults or {}).get(ri, 1), release_time=world.iso(t0 + sign * slot * DT), X=x, Y=y, Z=z, tag=tag))
+    rr.sort(key=lambda r: sign * world.tosec(r["release_time"]))  # simulation order; stable: keeps the given order within a release time
     ibm = dict(module=drive.plug("sibm.py"), age=True)
     if case["death"] in ("ibm", "both"):
         ibm["kill_tags"] = {str(case["kill_step"]): [10 if case["death"] == "ibm" else 11]}
     state = dict(instance_variables=dict(tag="int", temp="float", age="float"), default_values=dict(temp=0.0, age=0.0))
-    conf = drive.roms_conf(d, d / "f_*.nc", t0, t0 + NSTEPS * DT, DT, rr, outvars=("pid", "X", "Y", "Z", "temp", "age", "tag"),
+    conf = drive.roms_conf(d, d / "f_*.nc", t0, t0 + sign * NSTEPS * DT, DT, rr, reversed_=sign < 0, outvars=("pid", "X", "Y", "Z", "temp", "age", "tag"),
                            period=case["period"] * DT, layout=case["layout"], tracker=dict(advection=case["scheme"]), state=state, ibm=ibm,
                            extra_forcing=["temp"])
     conf["output"]["instance_variables"]["tag"] = world.ovar("i4")
@@ -145,6 +160,14 @@ def compare(base, var, tags, what, case, extra):
 
 def variants(case):
     idx = [0, 1, 2, 3]
+    if case.get("nsteps"):  # long horizon: the crowd variants only, 34 observed particles
+        idx = list(range(len(ROWS)))
+        for m in ({2: 400}, {1: 150, 3: 200}, {0: 600}, {3: 140}):
+            yield "mult", idx, dict(rows=idx, mults=m)
+        yield "subset", idx[1:20], dict(rows=idx[1:20])
+        yield "subset", idx[::3], dict(rows=idx[::3])
+        yield "repeat", idx, dict(rows=idx)
+        return
     for r in range(1, 5):
         for sub in itertools.combinations(idx, r):
             if len(sub) < 4:
@@ -167,7 +190,7 @@ def run_case(case):
     viols, n, nt = [], 0, 0
     outcomes = set()
     try:
-        base, base_raw = run_variant(case, [0, 1, 2, 3])
+        base, base_raw = run_variant(case, list(range(len(ROWS))) if case.get("nsteps") else [0, 1, 2, 3])
     except drive.RunFailed as e:
         return util.result(viol=[util.viol("crash:base", f"{case}: {e}", case)], nontrivial=1)
     n += 1
@@ -196,6 +219,7 @@ def run_case(case):
             nt += 1
         outcomes.add((what, died_early))
     util.cleanup_scratch(keep_root=True)
+    NSTEPS = case.get("nsteps", 7)
     return util.result(evals=n, nontrivial=nt, viol=viols, outcomes=[list(o) for o in outcomes], states=n * NSTEPS, transitions=n * NSTEPS,
                        sample=dict(case, rows=[list(r) for r in ROWS], victim_died_before_end=bool(died_early), records=nrec))
 
